@@ -126,15 +126,16 @@ Qed.
 Print Assumptions C05_scalars_by_value_containers_by_reference.
 
 (* len / add / del / concat as the Go code computes them (append, copy, re-slicing) agree
-   with the list reference (insert_at, remove_at, concat) incl. positions, and panic exactly
-   outside the valid positions (visible here, owed to C06); map writes and del agree with the
+   with the list reference (insert_at, remove_at, concat) incl. positions, and return an ERROR
+   exactly outside the valid positions (no panic outcome is left, cf. the repairs 07794bb and
+   d53eab2 of C06); map writes and del agree with the
    finite-map reference: the key read back, all other keys, the size. *)
 Theorem C05_list_map_builtins_refine :
   (forall l v i, (0 <= i <= Z.of_nat (length l))%Z -> go_add_at l v i = Ok (insert_at l (Z.to_nat i) v)) /\
-  (forall l v i, (i < 0 \/ Z.of_nat (length l) < i)%Z -> exists site, go_add_at l v i = Panic site) /\
+  (forall l v i, (i < 0 \/ Z.of_nat (length l) < i)%Z -> exists e, go_add_at l v i = Err e) /\
   (forall l v, go_add l v = l ++ [v]) /\
   (forall l i, (0 <= i < Z.of_nat (length l))%Z -> go_del_at l i = Ok (remove_at l (Z.to_nat i))) /\
-  (forall l i, (i < 0 \/ Z.of_nat (length l) <= i)%Z -> exists site, go_del_at l i = Panic site) /\
+  (forall l i, (i < 0 \/ Z.of_nat (length l) <= i)%Z -> exists e, go_del_at l i = Err e) /\
   (forall ls, go_concat ls = concat ls) /\
   (forall m k, keys_nodup m ->
       let k0 := map_field_key m (key_text k) in
@@ -151,9 +152,9 @@ Theorem C05_list_map_builtins_refine :
 Proof.
   repeat split.
   - exact go_add_at_refines.
-  - exact go_add_at_panics.
+  - exact go_add_at_errors.
   - exact go_del_at_refines.
-  - exact go_del_at_panics.
+  - exact go_del_at_errors.
   - exact go_concat_refines.
   - apply go_map_del_spec; auto.
   - apply go_map_del_spec; auto.
